@@ -323,9 +323,9 @@ impl FsmExecutor {
     /// Sends some event to a session.
     pub fn send_to_session(&self, session_id: SessionId, event: Event) -> Result<(), SendError<Box<Event>>> {
         match self.get_session_sender(session_id) {
-            None => {
-                todo!("Handling of unknown session")
-            }
+            // W3C: for a session that does not exist the caller places "error.communication"
+            // on the internal queue of the sending session.
+            None => Err(SendError(Box::new(event))),
             Some(sender) => sender.send(Box::new(event)),
         }
     }
